@@ -80,6 +80,7 @@ int verif_thrown;
 #define VERIF_MAX_ELEMENT(b, e) \
   ({ const size_t *verif_b_ = (b); size_t verif_m_ = *verif_b_; for (const size_t *verif_it_ = verif_b_ + 1; verif_it_ < (e); ++verif_it_) if (verif_m_ < *verif_it_) verif_m_ = *verif_it_; verif_m_; })
 #define VERIF_ARRAY_END(x) ((x).m_data + sizeof((x).m_data) / sizeof((x).m_data[0]))
+#define VERIF_ARRAY_LEN(x) (sizeof((x).m_data) / sizeof((x).m_data[0]))
 
 /* std::min / std::max / std::clamp on values of one type [alg.min.max], [alg.clamp] */
 #define VERIF_STD_min(a, b) ((b) < (a) ? (b) : (a))
